@@ -492,6 +492,11 @@ def setitem(ctx, obj, idx, v):
 def delitem(ctx, obj, idx):
     if isinstance(obj, Ref):
         s = ctx.st(obj)
+        if obj.kind == "buf" and not isinstance(idx, slice) and conc(idx) == 0:
+            if ctx.branch(z(text_len(s["v"]), "int") > 0, "buf-nonempty"):      # del b[0]
+                s["v"] = text_slice(ctx, s["v"], slice(1, None, None))
+                return
+            raise py_exc(IndexError, "bytearray index out of range")
         if obj.kind == "buf" and isinstance(idx, slice):
             cur = s["v"]
             if idx.start is None and idx.stop is None:
@@ -961,6 +966,10 @@ def buf_method(ctx, r, s, name, args, kwargs):
         return None
     if name == "append":
         raise Undecided("bytearray.append")
+    if name in ("partition", "rpartition"):
+        # bytearray.partition returns bytearrays (mutable, e.g. `del value[0]` afterwards)
+        parts = text_method(ctx, s["v"], name, args, kwargs)
+        return tuple(ctx.alloc("buf", init={"v": as_text(ctx, x)}) for x in parts)
     if name in TEXT_METHODS:
         return text_method(ctx, s["v"], name, args, kwargs)
     raise Undecided("bytearray method " + name)
